@@ -197,6 +197,17 @@ func checkC07(p *Prog, r *Report) {
 			var o *Origin
 			var fa *Facts
 			for _, cs := range callSites(fn) {
+				if isBigDivisionCall(cs.Name) {
+					nNarrow++
+					if o == nil {
+						o = NewOrigin(p, fn)
+						fa = NewFacts(p, fn, o)
+					}
+					ok, wit, dv := bigDivisionGuard(o, fa, cs.Instr.(ssa.Instruction), cs.Instr.Common())
+					r.Check(ok, kp("PANIC", "burn.EndBlock→"+FuncName(fn)+"→"+cs.Name), "a division on the burn path has a divisor that cannot be zero (supplies and balances can: the burn itself empties them)", p.Pos(cs.Instr.Pos()),
+						"divisor guarded: "+wit, fmt.Sprintf("%s divides by %v with no dominating non-zero test: when it is zero (a denomination burned completely) EndBlock panics and the chain halts", FuncName(fn), dv))
+					continue
+				}
 				guard := isNarrowingIntCall(cs.Name)
 				if guard == "" {
 					continue
@@ -348,7 +359,19 @@ func checkC07(p *Prog, r *Report) {
 				args := cs.Instr.Common().Args
 				var roots []*ssa.Function
 				if len(args) >= 3 {
-					switch x := args[2].(type) {
+					iv := args[2]
+					for {
+						if ct, ok := iv.(*ssa.ChangeType); ok {
+							iv = ct.X
+							continue
+						}
+						if mi, ok := iv.(*ssa.MakeInterface); ok {
+							iv = mi.X
+							continue
+						}
+						break
+					}
+					switch x := iv.(type) {
 					case *ssa.MakeClosure:
 						roots = append(roots, x.Fn.(*ssa.Function))
 					case *ssa.Function:
@@ -391,6 +414,48 @@ func checkC07(p *Prog, r *Report) {
 			}
 		}
 		r.Count("invariants-registered-by-custom-modules", nInv)
+	}
+	// the burn MODULE account (where coins are moved to be burned) stays a module account: nobody can create a plain account at its
+	// address before the first burn creates it (bank refuses transfers to blocked addresses, feegrant/vesting refuse to create accounts
+	// there). Otherwise auth's GetModuleAccount panics ("account is not a module account") inside the burn and every block halts.
+	if ba := p.Func(Rel("app"), "BlockedAddresses"); ba != nil {
+		bo := NewOrigin(p, ba)
+		unblocked, nDel := []string{}, 0
+		for _, cs := range callSites(ba) {
+			if cs.Name != "builtin:delete" {
+				continue
+			}
+			nDel++
+			kt := bo.Of(cs.Instr.Common().Args[1])
+			name := "?"
+			kt.Walk(func(t *Term) {
+				if t.Op == "const" && strings.HasPrefix(t.Name, `"`) {
+					name = strings.Trim(t.Name, `"`)
+				}
+			})
+			unblocked = append(unblocked, name)
+		}
+		okB := !has(unblocked, strings.Trim(modC, `"`)) && !has(unblocked, "?")
+		r.Check(okB, kp("WIRE", "BlockedAddresses∌burn-module"), "the burn module account's address is blocked for incoming transfers and account creation", p.FnPos(ba),
+			fmt.Sprintf("addresses removed from the blocked set: %v", unblocked),
+			fmt.Sprintf("BlockedAddresses unblocks %v: a plain account can be created at the burn module's address before the first burn, after which auth.GetModuleAccount panics inside every burn", unblocked))
+		r.Floor("control:delete-calls-in-BlockedAddresses", nDel, 1)
+		passed := false
+		if newFn := p.Func(Rel("app"), "New"); newFn != nil {
+			no := NewOrigin(p, newFn)
+			for _, cs := range callSites(newFn) {
+				if strings.HasSuffix(cs.Name, ").InitKeyAndKeepers") {
+					for _, a := range cs.Instr.Common().Args {
+						if no.Of(a).IsCall("app.BlockedAddresses") {
+							passed = true
+						}
+					}
+				}
+			}
+		}
+		r.Check(passed, kp("WIRE", "InitKeyAndKeepers←BlockedAddresses()"), "the keepers are built with the application's blocked-address set", p.FnPos(ba), "app.New passes BlockedAddresses()", "app.New does not pass BlockedAddresses() to InitKeyAndKeepers")
+	} else {
+		r.Fail(kp("WIRE", "BlockedAddresses#anchor"), "anchor", "app/app.go", "BlockedAddresses not found")
 	}
 	r.Check(has(w.Manager, Rel("x/burn")), kp("WIRE", "manager∋burn"), "the burn module is registered in the module manager", p.Pos(w.ManagerPos), "present", "burn.NewAppModule is not passed to module.NewManager")
 	// keeper built from the bank keeper
